@@ -92,6 +92,7 @@ fn body(p: &P) -> Result<(), String> {
                 Kind::Callback => {
                     let g = Guard { route: i, drops: drops.clone(), done: done.clone() };
                     let log = log.clone();
+                    e1::inproc_point();
                     proxy.add_route(
                         rx.to_opaque(),
                         Box::new(move |m| {
@@ -110,6 +111,7 @@ fn body(p: &P) -> Result<(), String> {
                     );
                 },
                 Kind::Crossbeam => {
+                    e1::inproc_point();
                     xbs.push((i, proxy.route_ipc_receiver_to_new_crossbeam_receiver(rx)));
                 },
             }
@@ -117,6 +119,7 @@ fn body(p: &P) -> Result<(), String> {
         }
         for (i, r, tx) in feed {
             for s in 0..r.post {
+                e1::inproc_point();
                 tx.send(mk(i, r.pre + s, r.big)).map_err(|e| format!("post send on route {}: {}", i, e))?;
             }
             drop(tx);
@@ -185,6 +188,7 @@ fn quiet_burst_body(n: usize) -> Result<(), String> {
     for i in 0..n {
         let (tx, rx) = ipc::channel::<u32>().map_err(|e| e.to_string())?;
         let d = done_tx.clone();
+        e1::inproc_point();
         proxy.add_route(
             rx.to_opaque(),
             Box::new(move |m| {
@@ -193,6 +197,7 @@ fn quiet_burst_body(n: usize) -> Result<(), String> {
         );
         txs.push(tx);
     }
+    e1::inproc_point();
     txs[n - 1].send(77).map_err(|e| e.to_string())?;
     match done_rx.recv() {
         Ok((i, 77)) if i == n - 1 => {},
@@ -214,6 +219,7 @@ fn cross_backlog_body(n: u32) -> Result<(), String> {
         let (tx, rx) = ipc::channel::<u32>().map_err(|e| e.to_string())?;
         let g = Guard { route: i, drops: Arc::new(Mutex::new(Vec::new())), done: done_tx.clone() };
         let lg = log.clone();
+        e1::inproc_point();
         proxy.add_route(
             rx.to_opaque(),
             Box::new(move |m| {
@@ -227,9 +233,11 @@ fn cross_backlog_body(n: u32) -> Result<(), String> {
     // let the router register both routes and go back to waiting
     crate::sched::settle();
     for k in 0..n {
+        e1::inproc_point();
         txs[1].send(k).map_err(|e| e.to_string())?;
     }
     for k in 0..n {
+        e1::inproc_point();
         txs[0].send(k).map_err(|e| e.to_string())?;
     }
     drop(txs);
@@ -259,6 +267,7 @@ fn many_tasks_body(n: usize) -> Result<(), String> {
         hs.push(std::thread::spawn(move || -> Result<(), String> {
             let (tx, rx) = ipc::channel::<u32>().map_err(|e| e.to_string())?;
             let g = Guard { route: i, drops: Arc::new(Mutex::new(Vec::new())), done: dn };
+            e1::inproc_point();
             pr.add_route(
                 rx.to_opaque(),
                 Box::new(move |m| {
@@ -266,6 +275,7 @@ fn many_tasks_body(n: usize) -> Result<(), String> {
                     lg.lock().unwrap().push((i, m.to::<u32>().unwrap_or(999_999)));
                 }),
             );
+            e1::inproc_point();
             tx.send(i as u32 * 10).map_err(|e| e.to_string())?;
             tx.send(i as u32 * 10 + 1).map_err(|e| e.to_string())?;
             Ok(())
@@ -347,13 +357,20 @@ pub fn scenarios(tier: Tier) -> Vec<Scenario> {
         }
         add(vec![r(Callback, 1, 1, 0, false), r(Crossbeam, 0, 1, 1, false), r(Callback, 0, 1, 1, true)], 1);
     }
+    for sc in v.iter_mut() {
+        // in-process build: tasks that block by spin-then-park may also keep the processor
+        sc.cfg.yield_alts = cfg!(feature = "inproc") && !sc.cfg.strict_deviations;
+    }
     v
 }
 
-pub fn run(tier: Tier, _part: bool) -> i32 {
-    let mut rep = Report::new("C07", tier, "model_checking");
+pub fn run(tier: Tier, part_only: bool) -> i32 {
+    super::run_with_inproc("C07", tier, part_only, "model_checking", &run_all)
+}
+
+fn run_all(rep: &mut Report, tier: Tier) {
     let scs = scenarios(tier);
-    let tot = e1::run_scenarios(&mut rep, &scs, &e1::strict_judge, if tier.is_quick() { 40.0 } else { 3000.0 });
+    let tot = e1::run_scenarios(rep, &scs, &e1::strict_judge, if tier.is_quick() { 40.0 } else { 3000.0 });
     rep.set("deviation_bound_min", json!(tot.min_bound));
     rep.set("deviation_bound_max", json!(tot.max_bound));
     rep.set("evaluations", json!(tot.execs));
@@ -361,10 +378,10 @@ pub fn run(tier: Tier, _part: bool) -> i32 {
     rep.set("rule", json!("one evaluation = one complete schedule (<= bound deviations) of registering/sending/dropping tasks against the real router thread; routes: callback with drop guard or crossbeam forwarding, 0-2 messages queued before registration, 0-2 after, registered from the main task or a helper, callbacks that themselves perform a visible operation; plus quiet bursts of 9/12/33 registrations, a 40+10 / 0+50 backlog, a backlog on the newer route first then the older one, and six registering tasks (wide scenarios count every non-default choice as a deviation); schedules are distinct by construction (the depth-first search never repeats a choice sequence) and a schedule counts as non-trivial when it contains at least one context switch; enumerated cases are distinct by construction"));
     rep.assume("router queue operations are paired with a system call inside one critical section, so system-call/futex granularity covers its interleavings");
     rep.assume("the proxy is leaked at the end of each execution (stopping a router is C17)");
-    rep.finish()
 }
 
 pub fn replay(tier: Tier, v: &Value) -> i32 {
+    let v = if v.get("variant").is_some() { &v["case"] } else { v };
     let mut scs = scenarios(tier);
     scs.extend(scenarios(if tier.is_quick() { Tier::Thorough } else { Tier::Quick }));
     e1::replay(&scs, v)
